@@ -66,6 +66,7 @@ type simInline struct {
 }
 
 type simHistOpts struct {
+	CreateRace        bool // the log is sometimes created by two concurrent CreateLog calls, and CreateLog is sometimes run again over the existing log
 	Admission         bool // a bounded pool (Config.PoolSize) and low-priority submissions: rejections and evictions happen
 	RoundDuringSubmit bool // sometimes a whole sequencing round runs inside a storage operation of a submission (issuer upload)
 	HTTP              bool // some submissions go through Log.Handler() with real certificate chains, SCTs are verified
@@ -84,6 +85,7 @@ type simHistOpts struct {
 
 // simHistStats describes what a generated history actually exercised.
 type simHistStats struct {
+	CreateRaces, CreatesOverExisting int
 	ResubmittedFailed                                                                                       int
 	RateLimited                                                                                             int
 	PoolSize                                                                                                int
@@ -403,7 +405,28 @@ func simShortErr(err error) string {
 func (h *simHist) run(t *rapid.T) error {
 	s := h.s
 	if !h.opts.Existing {
-		if _, err := s.create(nil); err != nil {
+		if h.opts.CreateRace && rapid.IntRange(0, 3).Draw(t, "createRace") == 1 {
+			// two processes create the log at the same time: the second CreateLog runs inside a storage or lock
+			// operation of the first
+			at := rapid.IntRange(1, 5).Draw(t, "createRaceAt")
+			count, okInner := 0, false
+			s.w.yield = func(p *simProc, op *simOp) {
+				if count++; count == at {
+					p2 := s.newProc()
+					p2.begin("create", nil)
+					cfg := s.config(p2)
+					cfg.Backend, cfg.Lock = &simInlineBackend{&simBackend{p2}}, &simInlineLock{&simLock{p2}}
+					okInner = CreateLog(context.Background(), cfg) == nil
+				}
+			}
+			_, err := s.create(nil)
+			s.w.yield = nil
+			h.st.CreateRaces++
+			if err != nil && !okInner {
+				return fmt.Errorf("two concurrent CreateLog calls on empty stores both failed: %v", err)
+			}
+			h.st.descf("the log was created by two concurrent CreateLog calls (outer ok=%v, inner ok=%v)", err == nil, okInner)
+		} else if _, err := s.create(nil); err != nil {
 			return fmt.Errorf("CreateLog failed on empty stores: %v", err)
 		}
 	}
@@ -730,6 +753,18 @@ func (h *simHist) run(t *rapid.T) error {
 			restart = true
 		}
 		if restart {
+			if h.opts.CreateRace && rapid.IntRange(0, 5).Draw(t, "createAgain") == 2 {
+				// the operator's start-up script runs CreateLog again (as cmd/sunlight does on the inception date) while the
+				// existence probes fail transiently
+				h.in.close()
+				fl := []simFault{{Class: "lockfetch", Ordinal: 0, Mode: simErrNoApply}, {Class: "fetch", Ordinal: 0, Mode: simErrNoApply}}
+				_, err := s.create(fl[:rapid.IntRange(0, 2).Draw(t, "createAgainFaults")])
+				h.st.CreatesOverExisting++
+				h.st.descf("CreateLog over the existing log: err=%v", err != nil)
+				if err == nil {
+					return fmt.Errorf("CreateLog succeeded although the log exists")
+				}
+			}
 			if err := h.reload(t, h.opts.Faults); err != nil {
 				return err
 			}
